@@ -440,6 +440,8 @@ def enum_required_use(seed):
         r = group("")
         assert pos == len(toks)
         return r
+    # a member written twice counts twice in the counting groups
+    strings += ["^^ ( a a b )", "^^ ( a a )", "?? ( a a )", "?? ( !a !a b )", "^^ ( ( a b ) ( a b ) c )", "|| ( a a )", "?? ( a a b ) c"]
     strings += ["?? ( a )", "?? ( a ) b", "^^ ( a )", "|| ( a )", "b? ( ?? ( a ) )", "?? ( ( a b ) )", "|| ( ( a b ) )", "?? ( !a )"]
     from pkgcore.test.misc import FakePkg
     cases, fails = 0, []
